@@ -76,3 +76,30 @@ def run_compute_tie(name, cases, observations, shard=250):
     indices, coq errors)."""
     terms = [coq_compute_case(c, o) for c, o in zip(cases, observations)]
     return common.run_coq_shards(name, HEADER, terms, 'mismatches compute_ok', shard=shard, ctype='compute_case')
+
+
+# ---------------------------------------------------------------- forests as Coq terms
+
+def coq_tree(s, shape, vals):
+    own = [(impl.ravel(shape, i)) for i in s._indices]
+    return '(Node %s %s %s)' % (cz(s.idx), clist(own, lambda p: '(%s, %s)' % (cz(p), cz(vals[p]))),
+                                clist(s.children, lambda c: coq_tree(c, shape, vals)))
+
+
+def coq_forest(d, case):
+    shape = tuple(case['shape'])
+    return clist(list(d.trunk), lambda s: coq_tree(s, shape, case['vals']))
+
+
+def nav_obs(d):
+    nav = []
+    for s in d:
+        nav.append((int(s.idx), int(s.level), int(s.ancestor.idx), [int(x.idx) for x in s.descendants]))
+    leaves = sorted(int(s.idx) for s in d.leaves)
+    return nav, leaves, len(d)
+
+
+def coq_nav_case(d, case):
+    nav, leaves, n = nav_obs(d)
+    navt = clist(nav, lambda e: '(%s, (%s, (%s, %s)))' % (cz(e[0]), cz(e[1]), cz(e[2]), clist(e[3])))
+    return '(%s, (%s, (%s, %s)))' % (coq_forest(d, case), navt, clist(leaves), cz(n))
